@@ -9,9 +9,10 @@ from .c20 import oracle_key
 PREFIXES = ["SUPER_", "SUPER_", "CHR", "LG_"]
 
 
-def make_tagger(two_haps):
+def make_tagger(two_haps, primary=False, singletons=False):
     def tagger(rng, ptx, groups):
-        hap_cycle = ["HAP1", "HAP2"]
+        # Primary mode: the curated haplotype is tagged Primary instead of with its own name
+        hap_cycle = ["Primary" if primary else "HAP1", "HAP2"]
         painted_seen = 0
         used_names = set()
         contaminants = rng.random() < 0.3
@@ -29,6 +30,11 @@ def make_tagger(two_haps):
             if two_haps and painted:
                 sc_tags.append(hap)
                 painted_seen += 1
+                if singletons and painted_seen % 2 == 1 and rng.random() < 0.3:
+                    # a first-haplotype chromosome without homologue: the documented Singleton tag; the
+                    # next painted scaffold is a first-haplotype one again
+                    sc_tags.append("Singleton")
+                    painted_seen += 1
             whole = rng.random() < 0.6
             carrier = 0
             for j, pc in enumerate(grp):
@@ -115,9 +121,11 @@ class C10(PipelineProp):
                         r[1] = inp["scaffolds"][-1]["name"]
             if two:
                 inp["scaffolds"].pop()
-        ptx, pieces = P.gen_pretext(rng, inp, "edit", tagger=make_tagger(two))
-        return {"gen": "named/" + ("2hap" if two else "1hap"), "input": inp, "pretext": ptx,
-                "prefix": rng.choice(PREFIXES), "want_csv": True, "two": two}
+        primary = two and rng.random() < 0.35
+        singletons = two and not primary and rng.random() < 0.5
+        ptx, pieces = P.gen_pretext(rng, inp, "edit", tagger=make_tagger(two, primary, singletons))
+        return {"gen": "named/" + ("2hap" + ("-primary" if primary else "-singletons" if singletons else "") if two else "1hap"),
+                "input": inp, "pretext": ptx, "prefix": rng.choice(PREFIXES), "want_csv": True, "two": two}
 
     def oracle(self, case, obs):
         if "err" in obs or "two" not in case:
@@ -132,6 +140,20 @@ class C10(PipelineProp):
             keys = [(s_["rank"], oracle_key(s_["name"])) for s_ in a["scaffolds"]]
             if keys != sorted(keys):
                 return f"assembly {a['key']!r} is not in rank-then-natural-name order: {names}"
+        # the assemblies as the command names (and, in Primary mode, merges) them for its output files:
+        # every written assembly keeps the rank-first order of the assemblies it is made of
+        if obs.get("named"):
+            src = {a["key"]: [s_["name"] for s_ in a["scaffolds"]] for a in obs["asms"]}
+            for k, nm, cur, names in obs["named"]:
+                if k == "all_haplotigs":
+                    want = [n for a in obs["asms"] if a["curated"] and a["key"] != "Primary" for n in src[a["key"]]]
+                elif k == "additional_haplotigs":
+                    want = src.get("Haplotig")
+                else:
+                    want = src.get(k)
+                if want is not None and names != want:
+                    return (f"output assembly {nm} lists its scaffolds as {names}; the assemblies it is made of are in "
+                            f"rank-then-name order {want}")
         # haplotigs H_1..H_n by non-increasing length
         for a in obs["asms"]:
             if a["key"] == "Haplotig":
